@@ -9,12 +9,18 @@ package server
 //   N:tls:<ts>       new packet #k: real client.DirectTLS.Handshake ClientHello, client clock = ts (Unix s)
 //   N:badtag:<ts>    same, then one byte of the sealed block (session id) corrupted
 //   N:garbage        0x16 followed by noise (not a ClientHello)
+//   N:ws:<ts>        the same kind of credentials presented through the WebSocket transport (upgrade request
+//                    with the Hidden header); N:wsbadtag:<ts> with one byte of the sealed block corrupted
+//   V:<k>:tls        random (as on the wire) + sealed block of packet k re-packaged as a TLS ClientHello
+//                    (V:<k>:r:.. on a WebSocket packet flips bits of the random inside the Hidden header)
 //   V:<k>:r:<b1,b2..> packet k with the listed bits (0..255, bit i = byte i/8 bit i%8) of its 32-byte random flipped
 //   V:<k>:o:<off>:<mask hex>  packet k with byte <off> xor mask (anywhere in the packet)
 //   V:<k>:ws         random + sealed block of packet k re-packaged as a WebSocket upgrade request
 //   S:<d ns>         sleep (virtual), then wait until the cleaner goroutines are idle again
 //   P:<k>            AuthFirstPacket(packet k)
 //   C:<k>:<n>        n goroutines present packet k simultaneously
+//   F:<k>:<n>        n presentations of packet k with its random replaced by n distinct fresh values (a flood of
+//                    first packets that do not authenticate but are remembered); observed as f<acc>,<replays>,<other>
 //   D:<k>:<n>        n presentations of packet k OVERLAPPING deterministically through the clock seam
 //                    (State.WorldState.Now is a function): the first presenter is parked inside the clock
 //                    read that registerRandom makes (in the unchanged code: while it holds usedRandomM,
@@ -88,6 +94,80 @@ func c08ClientHello(k *c08Keys, rnd *rand.Rand, ts int64) []byte {
 	conn := &c08CapConn{}
 	(&client.DirectTLS{}).Handshake(conn, ai) // fails at the read of the reply (EOF): the hello has been written
 	return append([]byte{}, conn.buf.Bytes()...)
+}
+
+// ---- the same credentials (32-byte random as it is on the wire + sealed 64-byte block) on either transport
+func c08WSPacket(hidden []byte) []byte {
+	return []byte("GET / HTTP/1.1\r\nHost: www.bing.com\r\nUpgrade: websocket\r\nConnection: Upgrade\r\n" +
+		"Sec-WebSocket-Key: dGhlIHNhbXBsZSBub25jZQ==\r\nSec-WebSocket-Version: 13\r\nhidden: " +
+		base64.StdEncoding.EncodeToString(hidden) + "\r\n\r\n")
+}
+
+// the decoded Hidden header of a packet built by c08WSPacket
+func c08HiddenOf(pkt []byte) ([]byte, bool) {
+	if len(pkt) == 0 || pkt[0] != 0x47 {
+		return nil, false
+	}
+	i := bytes.Index(pkt, []byte("\r\nhidden: "))
+	if i < 0 {
+		return nil, false
+	}
+	rest := pkt[i+len("\r\nhidden: "):]
+	j := bytes.Index(rest, []byte("\r\n"))
+	if j < 0 {
+		return nil, false
+	}
+	hidden, err := base64.StdEncoding.DecodeString(string(rest[:j]))
+	if err != nil || len(hidden) != 96 {
+		return nil, false
+	}
+	return hidden, true
+}
+
+// raw random (as on the wire, NOT as a transport hands it on) and sealed block of a packet
+func c08Credentials(k *c08Keys, pkt []byte) (random []byte, block []byte, ok bool) {
+	if hidden, isWS := c08HiddenOf(pkt); isWS {
+		return hidden[:32], hidden[32:], true
+	}
+	if len(pkt) > c08TLSRandomOff+32 && pkt[0] == 0x16 {
+		fr, _, err := TLS{}.processFirstPacket(pkt, k.pv)
+		if err != nil {
+			return nil, nil, false
+		}
+		return append([]byte{}, pkt[c08TLSRandomOff:c08TLSRandomOff+32]...), fr.ciphertextWithTag[:], true
+	}
+	return nil, nil, false
+}
+
+func c08ToWS(k *c08Keys, pkt []byte) []byte {
+	random, block, ok := c08Credentials(k, pkt)
+	if !ok {
+		return pkt
+	}
+	return c08WSPacket(append(append([]byte{}, random...), block...))
+}
+
+// a ClientHello carrying the given credentials: a fresh hello of the same client as template, its random,
+// session id and key share (= the sealed block) overwritten
+func c08ToTLS(k *c08Keys, rnd *rand.Rand, pkt []byte) []byte {
+	random, block, ok := c08Credentials(k, pkt)
+	if !ok {
+		return pkt
+	}
+	tpl := c08ClientHello(k, rnd, 0)
+	fr, _, err := TLS{}.processFirstPacket(tpl, k.pv)
+	if err != nil || len(tpl) < c08TLSRandomOff+32+1+32 || tpl[c08TLSRandomOff+32] != 32 {
+		return pkt
+	}
+	ks := bytes.Index(tpl[c08TLSRandomOff+32+1+32:], fr.ciphertextWithTag[32:64])
+	if ks < 0 {
+		return pkt
+	}
+	ks += c08TLSRandomOff + 32 + 1 + 32
+	copy(tpl[c08TLSRandomOff:], random)
+	copy(tpl[c08TLSRandomOff+32+1:], block[:32])
+	copy(tpl[ks:], block[32:64])
+	return tpl
 }
 
 func c08Transport(pkt []byte) Transport {
@@ -297,6 +377,7 @@ func c08RunCase(k *c08Keys, line string, w *bufio.Writer) {
 	go sta.UsedRandomCleaner()
 	var pkts [][]byte
 	var facts, obs, dets []string
+	floodCtr := uint64(0)
 	stamp := func(o string) {
 		obs = append(obs, fmt.Sprintf("%s/%d@%d", o, c08CacheSize(sta), time.Now().UnixNano()))
 	}
@@ -312,6 +393,16 @@ func c08RunCase(k *c08Keys, line string, w *bufio.Writer) {
 				if p[1] == "badtag" {
 					pkt[c08TLSRandomOff+32+1+5] ^= 0x10 // inside the 32-byte session id = first half of the sealed block
 				}
+			case "ws", "wsbadtag":
+				// the same credentials presented through the WebSocket transport (Hidden header of the upgrade request)
+				ts, _ := strconv.ParseInt(p[2], 10, 64)
+				pkt = c08ToWS(k, c08ClientHello(k, rnd, ts))
+				if p[1] == "wsbadtag" {
+					if hidden, ok := c08HiddenOf(pkt); ok {
+						hidden[32+5] ^= 0x10
+						pkt = c08WSPacket(hidden)
+					}
+				}
 			case "garbage":
 				pkt = make([]byte, 200)
 				rnd.Read(pkt)
@@ -324,6 +415,15 @@ func c08RunCase(k *c08Keys, line string, w *bufio.Writer) {
 			pkt := append([]byte{}, pkts[ki]...)
 			switch p[2] {
 			case "r":
+				if hidden, ok := c08HiddenOf(pkt); ok {
+					// a WebSocket packet: the 32-byte random is the first part of the base64 Hidden header
+					for _, bs := range strings.Split(p[3], ",") {
+						b, _ := strconv.Atoi(bs)
+						hidden[b/8] ^= 1 << uint(b%8)
+					}
+					pkt = c08WSPacket(hidden)
+					break
+				}
 				for _, bs := range strings.Split(p[3], ",") {
 					b, _ := strconv.Atoi(bs)
 					pkt[c08TLSRandomOff+b/8] ^= 1 << uint(b%8)
@@ -335,13 +435,9 @@ func c08RunCase(k *c08Keys, line string, w *bufio.Writer) {
 					pkt[off] ^= byte(m)
 				}
 			case "ws":
-				fr, _, err := TLS{}.processFirstPacket(pkt, k.pv)
-				if err == nil {
-					hidden := append(append([]byte{}, fr.randPubKey[:]...), fr.ciphertextWithTag[:]...)
-					pkt = []byte("GET / HTTP/1.1\r\nHost: www.bing.com\r\nUpgrade: websocket\r\nConnection: Upgrade\r\n" +
-						"Sec-WebSocket-Key: dGhlIHNhbXBsZSBub25jZQ==\r\nSec-WebSocket-Version: 13\r\nhidden: " +
-						base64.StdEncoding.EncodeToString(hidden) + "\r\n\r\n")
-				}
+				pkt = c08ToWS(k, pkt)
+			case "tls":
+				pkt = c08ToTLS(k, rnd, pkt)
 			}
 			pkts = append(pkts, pkt)
 			facts = append(facts, c08Facts(k, pkt))
@@ -375,6 +471,36 @@ func c08RunCase(k *c08Keys, line string, w *bufio.Writer) {
 				cnt[r]++
 			}
 			stamp(fmt.Sprintf("c%d,%d,%d", cnt["a"], cnt["r"], cnt["o"]))
+		case "F":
+			// flood: n first packets with DISTINCT fresh randoms (packet k with its random overwritten by a
+			// counter that never repeats within the history; needs no keys).  They do not authenticate but
+			// are remembered.  Observed as f<accepted>,<replays>,<other>.
+			ki, _ := strconv.Atoi(p[1])
+			n, _ := strconv.Atoi(p[2])
+			random, block, ok := c08Credentials(k, pkts[ki])
+			cnt := map[string]int{}
+			if ok {
+				hidden := append(append([]byte{}, random...), block...)
+				tlsPkt := append([]byte{}, pkts[ki]...)
+				isWS := pkts[ki][0] == 0x47
+				for i := 0; i < n; i++ {
+					floodCtr++
+					var r [32]byte
+					binary.BigEndian.PutUint64(r[0:8], floodCtr)
+					binary.BigEndian.PutUint64(r[8:16], ^floodCtr)
+					r[16] = 0xF1
+					var pkt []byte
+					if isWS {
+						copy(hidden[:32], r[:])
+						pkt = c08WSPacket(hidden)
+					} else {
+						copy(tlsPkt[c08TLSRandomOff:], r[:])
+						pkt = tlsPkt
+					}
+					cnt[c08Present(sta, pkt)]++
+				}
+			}
+			stamp(fmt.Sprintf("f%d,%d,%d", cnt["a"], cnt["r"], cnt["o"]))
 		case "D":
 			ki, _ := strconv.Atoi(p[1])
 			n, _ := strconv.Atoi(p[2])
